@@ -3,6 +3,7 @@
    <path> = n x y ...; locations as their enum value 0..4):
    LINES rect <paths>                 -> OK <paths> | ERR oob|fuel     model of RectClipLines(rect, paths)
    LINEST rect <path>                 -> OK npieces {n {x y tagkind tagidx}} model with provenance tags (one polyline)
+   LINESTL rect <path>                -> same for the legacy (pre /repo 4911de9) behaviour; tagkind 3 = stale ip2
    LSPEC rect <path> <paths>          -> shape within order length (0/1 each: C09 verdict for output <paths>)
                                          strict edge crossings outlen (exact inside length not along / along a side,
                                          boundary crossings, output length; lengths in 2^-20 fixed point)
@@ -38,6 +39,10 @@ let handle t =
       (match rect_clip_lines_paths r ps with Ok o -> "OK " ^ show_paths o | Err e -> show_err e)
   | "LINEST" -> let r = read_rect t in let p = read_path t in
       (match rect_clip_lines_t r p with
+       | Ok o -> "OK " ^ String.concat " " (string_of_int (List.length o) :: List.map show_tpath o)
+       | Err e -> show_err e)
+  | "LINESTL" -> let r = read_rect t in let p = read_path t in
+      (match rect_clip_lines_legacy_t r p with
        | Ok o -> "OK " ^ String.concat " " (string_of_int (List.length o) :: List.map show_tpath o)
        | Err e -> show_err e)
   | "LSPEC" -> let r = read_rect t in let p = read_path t in let o = read_paths t in
